@@ -894,9 +894,28 @@ class Interp(object):
                     raise Unsupported("del target")
             return None
         if t is ast.With:
-            raise Unsupported("with statement")
+            # context managers that do not change values (named scopes, precision/config contexts) are
+            # transparent; anything else is unmodelled
+            for item in st.items:
+                cm = self.eval(item.context_expr, env, func)
+                if not getattr(cm, "__axi_transparent_context__", False):
+                    raise Unsupported("with statement over %s" % ast.unparse(item.context_expr)[:60])
+                if item.optional_vars is not None:
+                    self.assign(item.optional_vars, cm, env, func)
+            return self.exec_block(st.body, env, module, func)
         if t is ast.Try:
-            raise Unsupported("try statement")
+            # the protected body is interpreted; if the analysed code raises there, handlers are not modelled
+            try:
+                sig = self.exec_block(st.body, env, module, func)
+            except REJECTIONS as e:
+                raise Unsupported("exception handling (try/except) around a raising statement: %s" % e)
+            if sig is None and st.orelse:
+                sig = self.exec_block(st.orelse, env, module, func)
+            if st.finalbody:
+                sig2 = self.exec_block(st.finalbody, env, module, func)
+                if sig2 is not None:
+                    return sig2
+            return sig
         if t in (ast.Global, ast.Nonlocal):
             raise Unsupported("global/nonlocal")
         raise Unsupported("statement %s" % t.__name__)
@@ -1197,6 +1216,10 @@ class Interp(object):
                     except (Unsupported,):
                         parts.append("<?>")
             return "".join(parts)
+        if t is ast.NamedExpr:
+            v = self.eval(node.value, env, func)
+            self.assign(node.target, v, env, func)
+            return v
         if t is ast.Starred:
             raise Unsupported("starred expression outside call/tuple")
         if t is ast.Slice:
